@@ -38,6 +38,8 @@ put('C06', 'f07-n3-overlap', mk('prhClwsekk', micro=False), note='fixed d0d930d'
 # C04
 put('C04', 'f05-hanzi-boundary', {'kind': 'boundary', 'mode': 'hanzi', 'n': 11, 'kw': {'boost_error': False, 'mask': 0, 'mode': 'hanzi', 'error': 'L'}})
 put('C04', 'f03-eci-numeric', {'kind': 'eci', 'mode': 'numeric', 'n': 1, 'kw': {'eci': True, 'boost_error': False, 'mask': 0}})
+put('C01', 'f26-many-segments-requested-version', mk(['1', 'A', '1', 'A', '1', 'A', '1', 'A', '1'], version=1), note='fixed 5c99981')
+put('C04', 'f26-many-segments-requested-version', mk(['1', 'A', '1', 'A', '1', 'A', '1', 'A', '1'], version=1), note='fixed 5c99981')
 print('regress written')
 
 # C08
